@@ -220,7 +220,22 @@ func genC05Async(seed uint64, run int, tier string) *drv.Plan {
 	}
 	p.Config.AsyncPrune = true
 	p.Config.Flush = r.Pick(120, 150, 180, 220, 300, 400)
-	p.Config.QuantumUs = r.Pick(0, 200, 1000, 5000, 20000, 50000)
+	// a clock that runs fast against the tasks' progress: the pruner's polls
+	// and retries (100 ms, 1 s) then fall INSIDE the writer's commits
+	p.Config.QuantumUs = r.Pick(0, 1000, 5000, 20000, 50000, 50000, 100000)
+	// a third of the deletion requests name the latest version itself: accepted
+	// at once, carried out by the pruner's retries once the next commit is there
+	latest := int64(0)
+	for i := range p.Steps {
+		switch p.Steps[i].Op {
+		case drv.OpSave:
+			latest++
+		case drv.OpPrune:
+			if latest > 0 && r.Chance(1, 3) {
+				p.Steps[i].N = latest
+			}
+		}
+	}
 	return p
 }
 
@@ -825,7 +840,7 @@ func init() {
 			if run%10 == 3 {
 				return genC05Legacy(seed, run, tier)
 			}
-			if run%10 == 7 {
+			if run%10 == 7 || run%10 == 2 || os.Getenv("VERIF_C05_ASYNC_ONLY") != "" {
 				return genC05Async(seed, run, tier)
 			}
 			// a third of the runs: second stops inside the recovery, and stops after
